@@ -148,3 +148,7 @@ impl SpanExt for tracing::Span {
         );
     }
 }
+
+#[cfg(kani)]
+#[path = "/verif/kani/deadline_codec.rs"]
+mod verif_kani;
